@@ -3,6 +3,7 @@ package p17
 import (
 	"context"
 	"encoding/json"
+	"errors"
 	"fmt"
 	"testing"
 	"time"
@@ -18,10 +19,11 @@ import (
 
 // rtResult is what one round-trip case observed.
 type rtResult struct {
-	Viol     []violation
-	Flips    map[string]bool // tolerated nil<->empty flips seen (reported as classes only)
-	Classes  []string
-	HarnessErr string // the check itself could not run the case (not a verdict)
+	Viol         []violation
+	Flips        map[string]bool // tolerated nil<->empty flips seen (reported as classes only)
+	Classes      []string
+	HarnessErr   string // the check itself could not run the case (not a verdict)
+	Inconclusive string
 }
 
 func (r *rtResult) fail(key, format string, args ...any) {
@@ -37,9 +39,11 @@ func persistVia(ctx context.Context, s *services, inst *connector.Instance) erro
 	case err := <-done:
 		return err
 	case <-time.After(60 * time.Second):
-		return fmt.Errorf("persister callback not invoked within 60s")
+		return errPersistTimeout // liveness guard only: counted inconclusive, never a verdict
 	}
 }
+
+var errPersistTimeout = errors.New("persister callback not invoked within 60s")
 
 func toPositions(m map[string][]byte) map[string]opencdc.Position {
 	if m == nil {
@@ -62,6 +66,10 @@ func (s *stateCase) value() any {
 // writeCase stores the case through the real services.
 func writeCase(ctx context.Context, a *services, c *rtCase, res *rtResult) bool {
 	bad := func(op string, err error) bool {
+		if errors.Is(err, errPersistTimeout) {
+			res.Inconclusive = err.Error()
+			return true
+		}
 		if err != nil {
 			res.fail(prop+"/store-write-failed/"+op, "%s rejected a value the service documents as valid: %v", op, err)
 			return true
@@ -124,6 +132,11 @@ func writeCase(ctx context.Context, a *services, c *rtCase, res *rtResult) bool 
 			connector.Config{Name: k.Cfg.Name, Settings: k.Cfg.Settings}, connector.ProvisionType(k.Prov))
 		if bad("connector.Create", err) {
 			return false
+		}
+		if k.Prov == provisionedDLQ {
+			// documented: DLQ connectors are handed out but never persisted; nothing
+			// may show up for them after a restart (checked by the "(extra)" clause)
+			continue
 		}
 		if k.Update != nil {
 			if _, err := a.conns.Update(ctx, k.ID, k.Update.Plugin, connector.Config{Name: k.Update.Cfg.Name, Settings: k.Update.Cfg.Settings}); bad("connector.Update", err) {
@@ -307,6 +320,9 @@ func rtClasses(c *rtCase, f *features, res *rtResult) []string {
 		if k.Created != nil {
 			cls = append(cls, "ts-zone:"+k.Created.Zone)
 		}
+		if k.Prov == provisionedDLQ {
+			cls = append(cls, "connector:dlq-provisioned(not persisted)")
+		}
 	}
 	for _, p := range c.Processors {
 		if p.Cond != "" {
@@ -341,9 +357,8 @@ func jsonLen(v any) int {
 func TestC17RoundTrip(t *testing.T) {
 	st := pbt.For(prop)
 	defer st.Finish(t)
-	opts := genOpts{excluded: st.IsKnown}
 	rapid.Check(t, func(t *rapid.T) {
-		c := genRTCase(t, opts)
+		c := genRTCase(t)
 		pbt.MarkCurrent(prop, map[string]any{"kind": "roundtrip", "case": c})
 		res := runRoundTrip(c)
 		f := featuresOf(c)
@@ -351,6 +366,9 @@ func TestC17RoundTrip(t *testing.T) {
 		st.Case(pbt.Hash(c), nontrivial, rtClasses(c, f, res)...)
 		if res.HarnessErr != "" {
 			t.Fatalf("harness error: %s", res.HarnessErr)
+		}
+		if res.Inconclusive != "" {
+			st.Inconcl(res.Inconclusive)
 		}
 		if nontrivial && jsonLen(c) < 6000 && st.WantSample() {
 			st.Sample(map[string]any{"kind": "roundtrip", "case": c})
